@@ -1347,7 +1347,7 @@ HMCcreate(int32 file_id,       /* IN: file to put chunked element in */
 
     /* clear error stack and validate file record id */
     HEclear();
-    file_rec = HAatom_object(file_id);
+    file_rec = HIfile_rec(file_id);
 
     /* validate args */
     if (BADFREC(file_rec) || chk_array == NULL)
@@ -1979,7 +1979,7 @@ HMCgetdatainfo(int32 file_id, uint16 tag, uint16 ref, int32 *chk_coord, /* IN: c
     if (info_count == 0 && offsetarray != NULL && lengtharray != NULL)
         HGOTO_ERROR(DFE_ARGS, FAIL);
 
-    file_rec = HAatom_object(file_id);
+    file_rec = HIfile_rec(file_id);
     if (BADFREC(file_rec))
         HGOTO_ERROR(DFE_INTERNAL, FAIL);
 
@@ -2413,7 +2413,7 @@ HMCsetMaxcache(int32 access_id, /* IN: access aid to mess with */
     (void)flags;
 
     /* Check args */
-    access_rec = HAatom_object(access_id);
+    access_rec = HIaccess_rec(access_id);
     if (access_rec == NULL || maxcache < 1)
         HGOTO_ERROR(DFE_ARGS, FAIL);
 
@@ -2671,7 +2671,7 @@ HMCreadChunk(int32  access_id, /* IN: access aid to mess with */
     int          i;
 
     /* Check args */
-    access_rec = HAatom_object(access_id);
+    access_rec = HIaccess_rec(access_id);
     if (access_rec == NULL)
         HGOTO_ERROR(DFE_ARGS, FAIL);
 
@@ -3047,7 +3047,7 @@ HMCwriteChunk(int32       access_id, /* IN: access aid to mess with */
     int          i;
 
     /* Check args */
-    access_rec = HAatom_object(access_id);
+    access_rec = HIaccess_rec(access_id);
     if (access_rec == NULL)
         HGOTO_ERROR(DFE_ARGS, FAIL);
 
